@@ -1,4 +1,5 @@
 import PMV.Proofs.PyCore
+import PMV.Proofs.PyCoreInst
 /-
   C01 — With the default options a minified program behaves like the original.
   `Spec.PyCore` gives a first-order core of Python (ints, bools, strings, None; assignment, `if`,
@@ -9,9 +10,11 @@ import PMV.Proofs.PyCore
   the statement-level default transforms that are meant to be behaviour-neutral — remove_pass,
   remove_literal_statements (with its `__doc__` guard), remove_explicit_return_none,
   remove_exception_brackets, remove_object_base — and any pipeline of them leave the observable
-  unchanged.  Partial: constant folding, renaming, hoisting, import combining, annotation removal
-  and positional-only conversion are decided by the differential-execution oracle on the real code
-  and by the per-transform theorems of C02–C07/C09/C10, not by a PyCore theorem.
+  unchanged; constant folding (for any oracle) and positional-only conversion *refine* it: unless the
+  original run leaves the core (`stuck`), the transformed module behaves identically.
+  Partial: renaming, hoisting, import combining and annotation removal are decided by the
+  differential-execution oracle on the real code and by the per-transform theorems of
+  C02–C06/C09/C10, not by a PyCore theorem.
 -/
 namespace PMV.C01
 open PMV PMV.Transforms PMV.PyCore PMV.Minify
@@ -40,22 +43,72 @@ theorem exception_brackets_preserves (el : List String) (n : Nat) (m : Module) :
 theorem remove_object_preserves (n : Nat) (m : Module) : run n (travModule removeObject m) = run n m :=
   run_trav _ object_sound object_table n m
 
+/-- T01.7: constant folding refines the behaviour of every module: unless the original run leaves the core
+    (`stuck`), the folded module prints the same lines, ends the same way and leaves the same globals — for any
+    oracle (inside the core only integer and bool arithmetic is defined, computed by `PyInt.eval` on both sides). -/
+theorem constant_folding_preserves (t : Printer.PrecTable) (sp : Token.Spacing) (orc : Fold.Oracle) (n : Nat) (m : Module)
+    (hcore : (run n m).ending ≠ "stuck") : run n (foldModule t sp orc m) = run n m :=
+  run_foldModule t sp orc n m hcore
+
+/-- T01.8: turning positional-only parameters into ordinary ones refines the behaviour of every module
+    (PyCore has positional calls only: the documented keyword-collision corner is outside it). -/
+theorem convert_posargs_preserves (n : Nat) (m : Module) (hcore : (run n m).ending ≠ "stuck") :
+    run n (removePosargs m) = run n m :=
+  run_removePosargs n m hcore
+
 /-- the switches whose transform is not covered by a PyCore theorem are off -/
 def CoreOnly (o : Opts) : Prop :=
-  o.combineImports = false ∧ o.annotations.any = false ∧ o.removeAsserts = false ∧ o.removeDebug = false ∧
-  o.constantFolding = false ∧ o.convertPosargs = false
+  o.combineImports = false ∧ o.annotations.any = false ∧ o.removeAsserts = false ∧ o.removeDebug = false
 
-/-- T01.6: the modelled transform pipeline, restricted to the behaviour-neutral statement transforms
-    (any subset of them, in pipeline order), preserves the observable behaviour. -/
+/-- T01.6: the modelled transform pipeline, restricted to the seven transforms covered above (any subset of
+    them, in pipeline order), refines the observable behaviour of every module that stays inside the core. -/
 theorem pipeline_partial (t : Printer.PrecTable) (sp : Token.Spacing) (orc : Fold.Oracle) (el : List String)
-    (o : Opts) (ho : CoreOnly o) (n : Nat) (m : Module) :
+    (o : Opts) (ho : CoreOnly o) (n : Nat) (m : Module) (hcore : (run n m).ending ≠ "stuck") :
     run n (transformM t sp orc el o m) = run n m := by
-  obtain ⟨h1, h2, h3, h4, h5, h6⟩ := ho
-  unfold transformM
-  simp only [h1, h2, h3, h4, h5, h6, Bool.false_eq_true, if_false]
-  cases o.removeExceptionBrackets <;> cases o.removeExplicitReturnNone <;> cases o.removeObjectBase <;>
-    cases o.removePass <;> cases o.removeLiteralStatements <;>
-    simp only [if_true, Bool.false_eq_true, if_false, exception_brackets_preserves, return_none_preserves,
-      remove_object_preserves, remove_pass_preserves, remove_literals_preserves]
+  obtain ⟨h1, h2, h3, h4⟩ := ho
+  let m1 := if o.removeLiteralStatements then removeLiteralStatements m else m
+  have e1 : run n m1 = run n m := by
+    show run n (if o.removeLiteralStatements then removeLiteralStatements m else m) = run n m
+    split
+    · exact remove_literals_preserves n m
+    · rfl
+  let m2 := if o.removePass then travModule removePass m1 else m1
+  have e2 : run n m2 = run n m := by
+    show run n (if o.removePass then travModule removePass m1 else m1) = run n m
+    split
+    · rw [remove_pass_preserves, e1]
+    · exact e1
+  let m3 := if o.removeObjectBase then travModule removeObject m2 else m2
+  have e3 : run n m3 = run n m := by
+    show run n (if o.removeObjectBase then travModule removeObject m2 else m2) = run n m
+    split
+    · rw [remove_object_preserves, e2]
+    · exact e2
+  let m4 := if o.removeExplicitReturnNone then travModule removeReturnNone m3 else m3
+  have e4 : run n m4 = run n m := by
+    show run n (if o.removeExplicitReturnNone then travModule removeReturnNone m3 else m3) = run n m
+    split
+    · rw [return_none_preserves, e3]
+    · exact e3
+  let m5 := if o.constantFolding then foldModule t sp orc m4 else m4
+  have e5 : run n m5 = run n m := by
+    show run n (if o.constantFolding then foldModule t sp orc m4 else m4) = run n m
+    split
+    · rw [constant_folding_preserves t sp orc n m4 (by rw [e4]; exact hcore), e4]
+    · exact e4
+  let m6 := if o.removeExceptionBrackets then travModule (removeBrackets el) m5 else m5
+  have e6 : run n m6 = run n m := by
+    show run n (if o.removeExceptionBrackets then travModule (removeBrackets el) m5 else m5) = run n m
+    split
+    · rw [exception_brackets_preserves, e5]
+    · exact e5
+  have e7 : run n (if o.convertPosargs then removePosargs m6 else m6) = run n m := by
+    split
+    · rw [convert_posargs_preserves n m6 (by rw [e6]; exact hcore), e6]
+    · exact e6
+  have hT : transformM t sp orc el o m = (if o.convertPosargs then removePosargs m6 else m6) := by
+    simp only [transformM, h1, h2, h3, h4, Bool.false_eq_true, if_false, m6, m5, m4, m3, m2, m1]
+  rw [hT]
+  exact e7
 
 end PMV.C01
